@@ -2224,6 +2224,17 @@ coap_oscore_overhead(coap_session_t *session, coap_pdu_t *pdu) {
               /* kid */
               osc_ctx->sender_context->sender_id->length;
 
+  /* Flag byte and kid context length byte of the OSCORE option value,
+     extended length of its header */
+  overhead += 3;
+
+  /*
+   * Dividing the options into an outer and an inner sequence changes the
+   * deltas: an option that followed a close neighbour can end up needing
+   * an extended (up to 2 byte) delta in the sequence it lands in.
+   */
+  overhead += 2 * 2;
+
   /* AAD overhead */
   overhead += AES_CCM_TAG;
 
